@@ -9,6 +9,7 @@
 package repro
 
 import (
+	"bytes"
 	"encoding/binary"
 	"encoding/json"
 	"fmt"
@@ -292,6 +293,12 @@ func runChild(specPath string) {
 			return t
 		}
 		d1, d2 := memdev.New(s.GPTSize), memdev.New(s.GPTSize)
+		// a GPT is written onto a disk whose LBA 0 already holds boot code and a disk signature (hybrid
+		// BIOS/UEFI images): identical prior bytes in both; neither Write nor the rewrite of the table read
+		// back may touch bytes 0..445
+		gboot := data(98, 446)
+		d1.RawWrite(gboot, 0)
+		d2.RawWrite(gboot, 0)
 		e1 := mk().Write(d1, s.GPTSize)
 		e2 := mk().Write(d2, s.GPTSize)
 		if e1 != nil || e2 != nil {
@@ -299,12 +306,19 @@ func runChild(specPath string) {
 		} else {
 			res.GPTHash = d1.Hash(0, s.GPTSize)
 			res.GPT2 = res.GPTHash == d2.Hash(0, s.GPTSize)
+			// the disk as another tool may have left it: the same table with boot code in front of the protective
+			// record; reading that table and writing it back must change nothing (not even bytes 0..445)
+			if !bytes.Equal(d1.Bytes(0, 446), gboot) {
+				res.GPTRW = "Table.Write changed bytes in front of the protective MBR record (boot code area 0..445)"
+			}
+			d1.RawWrite(gboot, 0)
+			d2.RawWrite(gboot, 0)
 			rt, err := gpt.Read(d1, 512, 512)
 			if err != nil {
 				res.GPTRW = "read back failed: " + err.Error()
 			} else if err := rt.Write(d1, s.GPTSize); err != nil {
 				res.GPTRW = "rewrite failed: " + err.Error()
-			} else if off := memdev.DiffOutside(d1, d2, 0, 0); off >= 0 {
+			} else if off := memdev.DiffOutside(d1, d2, 0, 0); off >= 0 && res.GPTRW == "" {
 				res.GPTRW = fmt.Sprintf("byte %d differs after read+write (%#x vs %#x)", off, d1.Bytes(off, 1)[0], d2.Bytes(off, 1)[0])
 			}
 		}
